@@ -156,6 +156,12 @@ class MFS:
         self.clock += 1
         self.mtime[rel] = self.clock
 
+    def _touch_parent(self, rel):
+        """POSIX: creating, removing or renaming an entry updates the directory's mtime"""
+        par = self.parent(rel)
+        if par:
+            self._touch(par)
+
     # --- primitive operations (POSIX)
     def op_open_write(self, rel):
         """open(path, 'w'/'wb'): create or truncate"""
@@ -166,6 +172,8 @@ class MFS:
             raise IsADirectoryError(21, "Is a directory", rel)
         if rel not in self.FILES:
             raise Unsupported("file created at a directory-typed model path %r" % rel)
+        if not self.is_(rel, FILE):
+            self._touch_parent(rel)
         self.kind[rel] = FILE
         self.content[rel] = b""
         self._touch(rel)
@@ -191,6 +199,7 @@ class MFS:
             raise Unsupported("directory created at a file-typed model path %r" % rel)
         self.kind[rel] = DIR
         self._touch(rel)
+        self._touch_parent(rel)
 
     def op_remove_file(self, rel):
         self.tick("remove " + rel)
@@ -199,6 +208,7 @@ class MFS:
         if self.is_(rel, DIR):
             raise IsADirectoryError(21, "Is a directory", rel)
         self.kind[rel] = ABSENT
+        self._touch_parent(rel)
 
     def op_rmtree(self, rel):
         self.tick("rmtree " + rel)
@@ -209,6 +219,7 @@ class MFS:
         for q in self.descendants(rel):
             self.kind[q] = ABSENT
         self.kind[rel] = ABSENT
+        self._touch_parent(rel)
 
     def op_move(self, a, b):
         """shutil.move(a, b)"""
@@ -255,6 +266,8 @@ class MFS:
         self.content[b] = self.content[a]
         self.mtime[b] = self.mtime[a]
         self.kind[a] = ABSENT
+        self._touch_parent(a)
+        self._touch_parent(b)
 
 
 def zi_(c):
